@@ -92,14 +92,15 @@ def r1_bounded_start(ctx, rep, R='C06.R1'):
                 if isinstance(t, ast.Subscript) and dotted(t.value) == running:
                     rem.append(n)
         if isinstance(n, ast.Call) and isinstance(n.func, ast.Attribute) and \
-                dotted(n.func.value) == running and n.func.attr in ('remove', 'pop', 'clear'):
+                dotted(n.func.value) == running and n.func.attr in ('remove', 'pop', 'popleft', 'clear'):
             rem.append(n)
         if isinstance(n, ast.Assign) and any(dotted(t) == running for t in n.targets) and \
-                not (isinstance(n.value, ast.List) and not n.value.elts):
+                not _empty_container(n.value):
             rem.append(n)
     okr = bool(rem)
+    from .common import guard_literals
     for r in rem:
-        lits = path_literals(r, fi.node)
+        lits = guard_literals(ctx, fi, r)
         alive = [(e, pos) for e, pos in lits if isinstance(e, ast.Call) and
                  isinstance(e.func, ast.Attribute) and e.func.attr == 'is_alive']
         if not (len(alive) == 1 and alive[0][1] is False):
@@ -114,6 +115,17 @@ def r1_bounded_start(ctx, rep, R='C06.R1'):
               'a thread can be dropped from %s while it may still be alive (its child would not '
               'count against the bound)' % running, key='running:removal', func=fi.qualname,
               where=ctx.where(fi, rem[0] if rem else fi.node))
+    # ... every finished thread is reaped in a polling round ("up to N layers make progress")
+    for r in rem:
+        verdict, why = _reaps_every_dead_thread(fi, r, running)
+        if verdict is None:
+            rep.undecide(R, 'running:reap-all', 'cannot tell whether every element of %s is examined (%s)'
+                         % (running, why))
+            continue
+        rep.check(verdict, R, 'every finished thread is removed from %s in a polling round' % running,
+                  '%s: a finished thread behind a live one keeps its slot, no queued layer is started '
+                  'and fewer than N layers make progress' % why, key='running:reap-all',
+                  func=fi.qualname, where=ctx.where(fi, r))
     # ... and the element that leaves is the one that was tested
     for r in rem:
         verdict, why = _removed_is_tested(fi, r, running)
@@ -143,6 +155,45 @@ def r1_bounded_start(ctx, rep, R='C06.R1'):
               key='main-loop', func=fi.qualname, where=ctx.where(fi, outer or fi.node))
 
 
+def _empty_container(v):
+    """[] / list() / deque() / collections.deque(): the initial binding of a work list"""
+    if isinstance(v, (ast.List, ast.Tuple)) and not v.elts:
+        return True
+    return isinstance(v, ast.Call) and not v.args and not v.keywords and \
+        (dotted(v.func) or '').split('.')[-1] in ('list', 'deque')
+
+
+def _reaps_every_dead_thread(fi, r, running):
+    """(True/False/None, why): does the construct around removal *r* look at EVERY element of the
+    running list in one polling round?  A loop over the list (or a copy, enumerate, index range) and a
+    rebuild by comprehension do; ``while running and not running[0].is_alive(): running.popleft()``
+    only ever looks at the oldest thread -- a finished thread behind a live one keeps its slot, so
+    fewer than N layers make progress."""
+    from .common import iter_source
+    if isinstance(r, ast.Assign):
+        return True, 'rebuilt from all elements'
+    for p in _parents(r, fi.node):
+        if isinstance(p, ast.For):
+            it = p.iter
+            while isinstance(it, ast.Call) and isinstance(it.func, ast.Name) and \
+                    it.func.id in ('list', 'tuple', 'reversed', 'enumerate', 'sorted') and it.args:
+                it = it.args[0]
+            if isinstance(it, ast.Subscript) and isinstance(it.slice, ast.Slice):
+                it = it.value
+            if isinstance(it, ast.Call) and isinstance(it.func, ast.Attribute) and it.func.attr == 'copy':
+                it = it.func.value
+            if dotted(it) == running or (isinstance(it, ast.Call) and is_name(it.func, 'range') and
+                                         running in norm(it)):
+                return True, 'loop over all elements'
+            return None, 'loop over %s' % norm(p.iter)
+        if isinstance(p, ast.While):
+            t = norm(p.test)
+            if ('%s[0]' % running) in t or ('%s[-1]' % running) in t:
+                return False, 'only %s[0] is examined in a round (%s)' % (running, t)
+            return None, 'while %s' % t
+    return None, 'removal outside a loop'
+
+
 def _removed_is_tested(fi, r, running):
     """(True/False/None, reason): does the removal *r* from the list *running* take out exactly the
     element whose is_alive() guards it?  Index-based removal inside a loop over the same list is
@@ -154,6 +205,14 @@ def _removed_is_tested(fi, r, running):
     lits = path_literals(r, fi.node)
     alive = [e for e, pos in lits if isinstance(e, ast.Call) and isinstance(e.func, ast.Attribute)
              and e.func.attr == 'is_alive' and pos is False]
+    if len(alive) != 1:
+        # the guard may be (part of) the test of an enclosing while loop
+        for p in _parents(r, fi.node):
+            if isinstance(p, ast.While):
+                from sa.variance import split_literals
+                alive = [e for e, pos in split_literals(p.test, True) if isinstance(e, ast.Call) and
+                         isinstance(e.func, ast.Attribute) and e.func.attr == 'is_alive' and pos is False]
+                break
     if len(alive) != 1:
         return None, 'no single is_alive() guard'
     tested = alive[0].func.value
@@ -167,6 +226,11 @@ def _removed_is_tested(fi, r, running):
         return ok, 'removes %s, tested %s' % (norm(r.args[0]) if r.args else '?', norm(tested))
     if isinstance(r, ast.Call) and r.func.attr == 'clear':
         return False, 'clears the whole list'
+    if isinstance(r, ast.Call) and (r.func.attr == 'popleft' or (
+            r.func.attr == 'pop' and len(r.args) == 1 and isinstance(r.args[0], ast.Constant) and
+            r.args[0].value == 0)):
+        ok = norm(tested) == '%s[0]' % running
+        return ok, 'removes the first element, tested %s' % norm(tested)
     idx = r.targets[0].slice if isinstance(r, ast.Delete) else (r.args[0] if r.args else None)
     if idx is None:
         return False, 'pop() without index removes the last element, not the tested one'
